@@ -1,7 +1,7 @@
 (** C04 - buckets, keys and sequences behave as a nested ordered map.
     The reference model is Spec.v (the harness compares every API result of the implementation with it).
     The theorems below state that the reference really is a map with the promised error behaviour. *)
-From Bbolt Require Import Base Consts Spec SpecProofs.
+From Bbolt Require Import Base Consts Spec SpecProofs SpecBucketProofs.
 
 (** Argument and type errors (and every other error) leave the state unchanged. *)
 Theorem C04_errors_change_nothing : forall w o root e out root',
@@ -55,3 +55,68 @@ Example C04_nonvacuous :
   fst (fst (exec true (OPut [[98]; [108]] [120] [7; 7]) root)) = ENone /\
   fst (fst (exec true (OPut [[98]] [108] [7]) root)) = EIncompatibleValue.
 Proof. vm_compute. repeat split. Qed.
+
+(** * Bucket-level laws of the reference (SpecBucketProofs.v) *)
+
+(** every state reachable from the empty database by any sequence of API calls (any mix of successes and errors, in
+    write or read transactions) is well-formed: keys strictly ascending at every nesting level *)
+Theorem C04_reachable_states_are_ordered_maps : forall w os, wf_bucket (exec_all w os (0, [])).
+Proof. exact exec_all_wf_from_empty. Qed.
+Print Assumptions C04_reachable_states_are_ordered_maps.
+
+Theorem C04_every_call_keeps_order : forall w o root e out root',
+  wf_bucket root -> exec w o root = (e, out, root') -> wf_bucket root'.
+Proof. exact exec_wf. Qed.
+Print Assumptions C04_every_call_keeps_order.
+
+(** a created bucket is empty with sequence 0 *)
+Theorem C04_created_bucket_is_empty : forall p n root root', create_bucket p n root = (ENone, root') ->
+  resolve (p ++ [n]) root' = Some (0, []).
+Proof. exact create_bucket_new. Qed.
+Print Assumptions C04_created_bucket_is_empty.
+
+(** deleting a bucket removes it and everything below it *)
+Theorem C04_deleted_bucket_subtree_gone : forall p n root root' r, sorted_at p root ->
+  delete_bucket p n root = (ENone, root') -> resolve (p ++ n :: r) root' = None.
+Proof. exact delete_bucket_subtree_gone. Qed.
+Print Assumptions C04_deleted_bucket_subtree_gone.
+
+(** a moved bucket arrives with its whole subtree, and leaves its old place *)
+Theorem C04_moved_bucket_arrives_intact : forall src n dst root root' r, move_bucket src n dst root = (ENone, root') ->
+  resolve (dst ++ n :: r) root' = resolve (src ++ n :: r) root.
+Proof. exact move_bucket_subtree. Qed.
+Print Assumptions C04_moved_bucket_arrives_intact.
+
+Theorem C04_moved_bucket_leaves_source : forall src n dst root root', sorted_at src root ->
+  move_bucket src n dst root = (ENone, root') -> resolve (src ++ [n]) root' = None.
+Proof. exact move_bucket_src_gone. Qed.
+Print Assumptions C04_moved_bucket_leaves_source.
+
+(** the reference refuses a move into the moved bucket's own subtree and changes nothing (the code does not: known finding D4) *)
+Theorem C04_move_into_own_subtree_refused : forall src n dst root, extends (src ++ [n]) dst ->
+  fst (move_bucket src n dst root) <> ENone /\ snd (move_bucket src n dst root) = root.
+Proof. exact move_bucket_into_itself. Qed.
+Print Assumptions C04_move_into_own_subtree_refused.
+
+(** sequences: NextSequence returns old + 1 (mod 2^64), stores it, and touches nothing else *)
+Theorem C04_next_sequence : forall p root v root', next_sequence p root = (ENone, v, root') ->
+  exists b, resolve p root = Some b /\ v = (fst b + 1) mod M64 /\
+            sequence p root' = (ENone, v) /\ resolve p root' = Some (v, snd b).
+Proof. exact next_sequence_spec. Qed.
+Print Assumptions C04_next_sequence.
+
+(** a put (a delete) changes exactly one key of one bucket: every other (bucket, key) reads as before *)
+Theorem C04_put_frame : forall p k v vl root root' q k2, put p k v vl root = (ENone, root') ->
+  (q <> p \/ k2 <> k) -> get q k2 root' = get q k2 root.
+Proof. exact put_get_frame. Qed.
+Print Assumptions C04_put_frame.
+
+Theorem C04_delete_frame : forall p k root root' q k2, sorted_at p root -> delete p k root = (ENone, root') ->
+  (q <> p \/ k2 <> k) -> get q k2 root' = get q k2 root.
+Proof. exact delete_get_frame. Qed.
+Print Assumptions C04_delete_frame.
+
+(** the sortedness side condition above holds in every reachable state *)
+Theorem C04_ordered_everywhere : forall root p, wf_bucket root -> sorted_at p root.
+Proof. exact wf_sorted_at. Qed.
+Print Assumptions C04_ordered_everywhere.
